@@ -170,12 +170,14 @@ fn all_types(r: &[i64], lay: &Lay, types: &[&str], out: &mut Vec<Value>) {
 // --------------------------------------------------------------------------- quantile_axis_skipnan_mut
 
 const MISSING: i64 = -(1 << 29) + 1;
+const INFV: i64 = 100_000;
 
 trait SElem: MaybeNan + Clone + 'static { const NAME: &'static str; fn mk(v: i64) -> Self; fn sc(&self) -> i64; }
 impl SElem for f64 {
     const NAME: &'static str = "f64";
-    fn mk(v: i64) -> Self { if v == MISSING { f64::NAN } else { v as f64 / 4.0 } }
-    fn sc(&self) -> i64 { if self.is_nan() { MISSING } else { (self * 1024.0).round() as i64 } }
+    // +-INFV stand for the infinities (logged as +-2^28 so that they stay the extreme values)
+    fn mk(v: i64) -> Self { if v == MISSING { f64::NAN } else if v == INFV { f64::INFINITY } else if v == -INFV { f64::NEG_INFINITY } else { v as f64 / 4.0 } }
+    fn sc(&self) -> i64 { if self.is_nan() { MISSING } else if *self == f64::INFINITY { 1 << 28 } else if *self == f64::NEG_INFINITY { -(1 << 28) } else { (self * 1024.0).round() as i64 } }
 }
 impl SElem for Option<i32> {
     const NAME: &'static str = "opt_i32";
@@ -310,12 +312,16 @@ pub fn gen(seed: u64, count: usize, tier: &str, params: &Params) -> Vec<Value> {
                 let lay = random_lay(&mut rng, &shape, fancy);
                 let n: usize = shape.iter().product();
                 let dens = rng.below(4);
+                let ty = *rng.pick(&["f64", "opt_i32"]);
+                let strat = *rng.pick(crate::fam_quant::STRATS);
+                // infinities (f64, selecting strategies only: interpolating with an infinity is not a number)
+                let infs = ty == "f64" && matches!(strat, "lower" | "higher" | "nearest") && rng.chance(1, 3);
                 let data: Vec<i64> = (0..n).map(|_| { let miss = match dens { 0 => false, 1 => true, 2 => rng.chance(1, 4), _ => rng.chance(1, 2) };
-                    if miss { MISSING } else { rng.range(-40, 40) } }).collect();
+                    if miss { MISSING } else if infs && rng.chance(1, 4) { if rng.chance(1, 2) { INFV } else { -INFV } } else { rng.range(-40, 40) } }).collect();
                 let b = *rng.pick(&[1i64, 2, 3, 4, 5, 8, 10]);
                 let q = json!({"a": rng.range(0, b), "b": b, "u": *rng.pick(&[0i64, 0, 1, -1])});
                 let script: Vec<i64> = if rng.chance(1, 3) { (0..rng.below(6)).map(|_| rng.below(1000) as i64).collect() } else { vec![] };
-                cases.push(json!({"ev": "qskip", "ty": *rng.pick(&["f64", "opt_i32"]), "strat": *rng.pick(crate::fam_quant::STRATS), "lay": lay.to_json(),
+                cases.push(json!({"ev": "qskip", "ty": ty, "strat": strat, "lay": lay.to_json(),
                                   "axis": axis, "data": data, "q": q, "pv": script}));
             }
         }
